@@ -21,6 +21,7 @@
 
 #include <atomic>
 #include "intrinsic_type.h"
+#include "verif_hook.h"
 
 #include <string>
 #include <vector>
@@ -36,7 +37,11 @@ class Complex
   Type _type;
   void * _instance = nullptr;
   /* shared by the copies held in cloned contexts, which run on their own threads */
+#ifdef BLOC_VERIF
+  verif_atomic_int * _refcount = nullptr;
+#else
   std::atomic<int> * _refcount = nullptr;
+#endif
 
   Complex(Type::TypeMinor type_id, void * handle);
 
